@@ -6,7 +6,7 @@ CONFIG = {
     "required_theorems": [
         "one_executor", "report_honest", "idle_after_failure", "shutdown_never_solicits",
         "terminate_only_when_safe", "client_trace_ok",
-        "until_nil_means_idle", "until_none_nothing_running", "shutdown_keeps_synchronizing", "channel_bounded",
+        "observer_ok_all", "until_nil_means_idle", "until_none_nothing_running", "shutdown_keeps_synchronizing", "channel_bounded",
     ],
     "harnesses": [
         {"cmd": "client", "cases_quick": 400, "cases_thorough": 6000, "shards_quick": 8, "shards_thorough": 32, "race": True},
@@ -15,6 +15,7 @@ CONFIG = {
         "hand-written model coq/theories/Client/Model.v of build_client.go (Run as one step; executor goroutine as a second thread with update/finish/close steps; 10-slot channel incl. a sender parked on a full buffer), tied by correspondence harness/cmd/client",
         "verif hook BuildClient.VerifState (read-only snapshot of schedulerMayThinkExecutingUntil, nextSynchronizationAt, executionCancellation != nil, PreferBeingIdle)",
         "constants: time.Minute grace and channel capacity 10 are read from build_client.go by the harness' go/ast extractor on every run (and cap(updates) at run time) and compared with Model.grace_ms / Model.chan_cap by Corr.v",
+        "observer monitor Spec.obm: the scheduler-side bound is reconstructed from the Synchronize traffic (requests, replies, clock, timer-vs-update outcome of the select) and grace_ms, never from the client's fields; the field is only compared against it",
         "Go harness: scripted OperationQueueClient, controllable BuildExecutor (goroutine controller keyed by goroutine id), fake clock, Gallina printer, case evaluator Corr.v (checks of Spec.v on implementation traces)",
         "Go runtime semantics of buffered channels (a receive from a full buffer admits the parked sender's value in the same operation), select, context cancellation",
     ],
